@@ -146,6 +146,10 @@ func checkC17(p *Program, r *Result) {
 	gr := newGoLayouts(p, pkgReadC)
 	checkOutputNames(p, r, gr, vf)
 	checkSummaryOrder(p, r, vf)
+	r.rule("C17.f", "read tool: numeric field values are rendered with numeric verbs", 2)
+	checkReadToolRendering(p, r, "C17.f")
+	r.rule("C17.m", "the writer emits records and index entries in the order and form it was handed them", 1)
+	checkWriterDoesNotMutateInputs(p, r, "C17.m")
 	r.rule("C17.o", "token bytes returned by Lexer.Next are the caller's or fresh (the read tool keeps records parsed from Next(nil))", 1)
 	checkLexerTokenOwnership(p, r, "C17.o")
 
